@@ -94,7 +94,9 @@ def mk_un(name, D, S, N, kind, k=0):
     at = "i64" if S else "u64"
     expr = {"neg": "-x", "shl": "x << cnl::constant<%d>{}" % k, "shr": "x >> cnl::constant<%d>{}" % k}[kind]
     rd = D + k + 2
-    ret = "i64"
+    ret = "i64" if rd <= 63 else "i128"
+    if D > 64:
+        at = "i128" if S else "u128"
     decl = "using {n}_L = %s;\nusing {n}_Res = decltype(%s);\n" % (T, expr.replace("x", "std::declval<{n}_L>()"))
     body = "    auto x = verif::mk<{n}_L>(a);\n    auto r = %s;\n    return static_cast<%s>(cnl::unwrap(r));" % (expr, cpp(ret))
 
@@ -133,14 +135,19 @@ def kernels(opts):
                         if (D1 + D2 if opn == "mul" else max(D1, D2) + 1) > 63:
                             continue  # CNL refuses (static_assert) results wider than intmax_t for native storage
                         specs.append(("b", D1, S1, N1, D2, S2, N2, opn))
-    for D in DIG:
+    un = []
+    for D in DIG + [64, 100, 127]:
         for S in (1, 0):
+            if D > 63 and S and D > 126:
+                continue
             N = rng.choice(["int", "i8", "i64"])
-            specs.append(("u", D, S, N, "neg", 0))
-            for k in (1, 7, rng.randint(2, 40)):
-                if D + k <= 63:
-                    specs.append(("u", D, S, N, "shl", k))
-                specs.append(("u", D, S, N, "shr", min(k, D)))
+            un.append(("u", D, S, N, "neg", 0))
+            if D <= 63:
+                for k in (1, 7, rng.randint(2, 40)):
+                    if D + k <= 63:
+                        un.append(("u", D, S, N, "shl", k))
+                    if min(k, D - 1) >= 1:
+                        un.append(("u", D, S, N, "shr", min(k, D - 1)))  # (a 0-digit result type is degenerate)
     sc = []
     for (D1, D2) in ((7, 7), (15, 8), (31, 16), (24, 31), (31, 31)):
         for opn in OPS:
@@ -149,7 +156,11 @@ def kernels(opts):
                 e2 = e1 + rng.choice([-12, -5, 0, 1, 7])
                 sc.append(("b", D1, S1, "int", D2, S2, "int", opn, (e1, e2)))
     frac = 0.12 if tier == "quick" else 0.6
-    specs = seeded_subset(specs, frac, opts["seed"], "c05") + seeded_subset(sc, 0.4 if tier == "quick" else 1.0, opts["seed"], "c05s")
+    # unary operators are few and cheap: negation of every (digits, signedness) always, the shifts sampled
+    un_neg = [u for u in un if u[4] == "neg"]
+    un_sh = [u for u in un if u[4] != "neg"]
+    specs = (seeded_subset(specs, frac, opts["seed"], "c05") + seeded_subset(sc, 0.4 if tier == "quick" else 1.0, opts["seed"], "c05s")
+             + un_neg + seeded_subset(un_sh, 0.25 if tier == "quick" else 1.0, opts["seed"], "c05u"))
     ks = []
     for s in specs:
         n = "K%d" % len(ks)
